@@ -94,6 +94,7 @@ let predict (c : string) (obs : string) : string * string * bool =
       let _resp = next () in
       let pools = num () in
       let _late = next () in
+      let _pause = next () in
       let cfg = parse_kvs (num ()) in
       let items = List.init (num ()) (fun _ -> parse_item ()) in
       let gk k = { g_ssl = ssl; g_target_host = bytes_of_string (if tgt = "name" then "localhost" else "127.0.0.1");
@@ -140,6 +141,9 @@ let predict (c : string) (obs : string) : string * string * bool =
               end in
       let nontrivial = cfg <> [] && (both <> [] || List.length items > 1) in
       (pred, verdict, nontrivial)
+  | "tr" ->
+      (* specification of NewTransport: every field of the TransportConfig lands in the same-named field of the transport *)
+      (c, verdict (obs = c) "transport-field-mismatch", true)
   | _ -> ("unknown-case", "BAD:unknown-case", false)
 
 let () = run_cases predict
